@@ -69,6 +69,7 @@ type Contract struct {
 	Default    bool // synthesized default contract of an uncontracted function with loops
 	Retains    []string // parameters (byte slices) the function keeps references into: callers must pass memory they own
 	NoAlloc    bool // nothing allocated by a call is reachable afterwards: the allocation counter is unchanged for the caller
+	NoAllocWhen *Clause // the same, on the returns where this condition over the results holds
 	Inline     bool
 	Where      string
 	ResultNames []string
@@ -115,7 +116,7 @@ func clauseTexts(cs []*Clause) string {
 	return strings.Join(ts, ", ")
 }
 
-var clauseRe = regexp.MustCompile(`^(requires|ensures|invariant|modifies|decreases|let|loop|split|trusted|inlines|inline|pure|noalloc|retains|use|results|after)\b(\[[^\]]*\])?\s*(.*)$`)
+var clauseRe = regexp.MustCompile(`^(requires|ensures|invariant|modifies|decreases|let|loop|split|trusted|inlines|inline|unroll|pure|noalloc|retains|use|results|after)\b(\[[^\]]*\])?\s*(.*)$`)
 var afterRe = regexp.MustCompile("^`([^`]*)`\\s+(assert|cut|use|let)(\\[[^\\]]*\\])?\\s+(.*)$")
 
 // parseContractFile reads //@ blocks from a file. pkgName qualifies unqualified keys.
@@ -304,12 +305,25 @@ func parseContractFile(path, pkgName, pkgPath string) ([]*Contract, error) {
 				cur.Inlines[qualifyKey(f[0], pkgName)] = n
 			}
 			last = nil
+		case "unroll":
+			// unroll n: the loops of this function are executed n times in place (with an unwinding obligation) instead of
+			// being cut by invariants
+			cur.UnrollAll, _ = strconv.Atoi(strings.TrimSpace(rest))
+			last = nil
 		case "trusted":
 			cur.Trusted = true
 		case "inline":
 			cur.Inline = true
 		case "noalloc":
-			cur.NoAlloc = true
+			// noalloc            : the function allocates nothing (checked at its returns); callers keep the same heap
+			// noalloc when <e>   : ... on the returns where e holds (e over the results), e.g. "noalloc when err == nil"
+			if r := strings.TrimSpace(rest); strings.HasPrefix(r, "when ") {
+				c := &Clause{Label: "noalloc", Text: strings.TrimSpace(r[5:]), Where: where}
+				last = c
+				cur.NoAllocWhen = c
+			} else {
+				cur.NoAlloc = true
+			}
 		case "retains":
 			cur.Retains = append(cur.Retains, strings.Fields(strings.ReplaceAll(rest, ",", " "))...)
 			last = nil
@@ -328,6 +342,9 @@ func parseContractFile(path, pkgName, pkgPath string) ([]*Contract, error) {
 	// parse expressions
 	for _, c := range out {
 		all := [][]*Clause{c.Requires, c.Ensures, c.Modifies, c.Decreases, c.Lets, c.Uses}
+		if c.NoAllocWhen != nil {
+			all = append(all, []*Clause{c.NoAllocWhen})
+		}
 		for _, ls := range c.Loops {
 			all = append(all, ls.Invariants, ls.Decreases, ls.Lets)
 		}
